@@ -933,6 +933,13 @@ RR_SCHEMA = {"name": _str, "type": _is_int, "class_": _is_int, "ttl": _is_int, "
 ERR_SCHEMA = {"msg": _str, "timestamp": _is_float}
 
 
+class OptDict:
+    """None or a dict following `schema` (problems are reported with the inner path)"""
+
+    def __init__(self, schema):
+        self.schema = schema
+
+
 def _check_dict(d, schema, path, out):
     if not isinstance(d, dict):
         out.append("%s: expected dict, got %s" % (path, type(d).__name__))
@@ -945,7 +952,10 @@ def _check_dict(d, schema, path, out):
             out.append("%s/%s: unexpected key" % (path, k))
             continue
         sch = schema[k]
-        if isinstance(sch, dict):
+        if isinstance(sch, OptDict):
+            if v is not None:
+                _check_dict(v, sch.schema, "%s/%s" % (path, k), out)
+        elif isinstance(sch, dict):
             _check_dict(v, sch, "%s/%s" % (path, k), out)
         else:
             try:
@@ -982,19 +992,18 @@ def validate_state(state, current_version) -> list[str]:
     t = state.get("type")
     common = {
         "version": lambda x: _is_int(x) and x == current_version, "type": lambda x: x in ("http", "tcp", "udp", "dns"),
-        "id": _str, "error": lambda x: x is None or not _problems(x, ERR_SCHEMA), "client_conn": CLIENT_SCHEMA,
+        "id": _str, "error": OptDict(ERR_SCHEMA), "client_conn": CLIENT_SCHEMA,
         "server_conn": SERVER_SCHEMA, "intercepted": _bool, "is_replay": lambda x: x in (None, "request", "response"),
         "marked": _str, "metadata": lambda x: isinstance(x, dict) and all(_str(k) for k in x), "comment": _str,
         "timestamp_created": _is_float,
         "backup": lambda x: x is None or isinstance(x, dict),
     }
     if t == "http":
-        common.update(request=REQ_SCHEMA, response=lambda x: x is None or not _problems(x, RESP_SCHEMA),
-                      websocket=lambda x: x is None or not _problems(x, WS_SCHEMA))
+        common.update(request=REQ_SCHEMA, response=OptDict(RESP_SCHEMA), websocket=OptDict(WS_SCHEMA))
     elif t in ("tcp", "udp"):
         common.update(messages=_listof(RAWMSG))
     elif t == "dns":
         d = _dns_schema()
-        common.update(request=d, response=lambda x: x is None or not _problems(x, d))
+        common.update(request=d, response=OptDict(d))
     _check_dict(state, common, "", out)
     return out
